@@ -204,6 +204,54 @@ def _w_uninspectable(task):
         ('partial(partial(staticmethod), 1, b=2)', P(P(_H.s), 1, b=2), [((), {}), ((), {'b': 3}), ((2,), {})]),
         ('lambda a, b=2', (lambda a, b=2: a), [((1,), {}), ((), {}), ((1, 2, 3), {}), ((), {'b': 1})]),
     ]
+    # the same callable asked twice, its signature changed in between (defaults added / removed on the function, also behind
+    # a bound method and under a partial; a partial's own keywords changed): every answer is about the callable as it is now
+    def mk():
+        def g(x, y):
+            return x
+        return g
+
+    def mk2():
+        def g(x, *, k=1):
+            return x
+        return g
+    g1, g2, g3 = mk(), mk2(), mk()
+
+    class _B(object):
+        def m(self, x, y):
+            return x
+    b = _B()
+    p3 = P(g3, 1)
+    p4 = P(mk(), 1)
+    staged = [
+        ('function, then __defaults__ = (5,)', g1, [((1,), {})], lambda: setattr(g1, '__defaults__', (5,))),
+        ('function with k=1, then __kwdefaults__ = None', g2, [((1,), {})], lambda: setattr(g2, '__kwdefaults__', None)),
+        ('bound method, then __defaults__ = (5,) on its function', b.m, [((1,), {})], lambda: setattr(_B.m, '__defaults__', (5,))),
+        ('partial(g, 1), then __defaults__ = (5,) on g', p3, [((), {})], lambda: setattr(g3, '__defaults__', (5,))),
+        ('partial(g, 1), then its keywords get y=2', p4, [((), {})], lambda: p4.keywords.update(y=2) if hasattr(p4.keywords, 'update') else None),
+    ]
+    for name, c, calls, change in staged:
+        res['counts']['programs'] += 1
+        for stage in ('before', 'after'):
+            if stage == 'after':
+                change()
+            for a, kw in calls:
+                try:
+                    c(*a, **kw)
+                    want = True
+                except TypeError:
+                    want = False
+                try:
+                    got = isvalid(c, *a, **kw)
+                except BaseException as e:
+                    got = 'raised %s' % type(e).__name__
+                res['counts']['evaluations'] += 1
+                res['nontrivial'] += 1
+                if got is not want:
+                    res['violations'].append(_v('C19', {'rule': 'disagrees-with-python', 'python_binds': want, 'cause': 'signature-changed-between-calls',
+                                                        'form': name.split(',')[0]},
+                                                '%s (%s the change): call %r %r: Python binds=%s, isvalid=%s' % (name, stage, a, kw, want, got),
+                                                {'form': name, 'call': [list(a), dict(kw)], 'task': 'uninspectable'}))
     for name, c, calls in cases:
         res['counts']['programs'] += 1
         for a, kw in calls:
